@@ -113,6 +113,9 @@ struct MT {
 
 struct W {
     rep: CaseReport,
+    /// Property being decided ("" = any): a violation of another property ends the history only
+    /// if its rule is not purely observational (see `halted`)
+    decide: String,
     trace: bool,
     now: i64,
     run_idx: u32,
@@ -937,9 +940,39 @@ fn profile(focus: &str) -> [u32; 13] {
     }
 }
 
+/// Rules that only observe: the model follows the real timer set as before after one of them, so
+/// a history being run to decide another property goes on (otherwise a defect whose first
+/// symptom belongs to property Q would hide every later symptom that belongs to P)
+const OBSERVATIONAL: &[&str] = &[
+    "cb-inside-api",
+    "cb-outside-run",
+    "timer-now",
+    "timer-nonadvancing-run",
+    "deleted-fired",
+    "early",
+    "timer-before-queued-call",
+    "fixed-order",
+    "deleted-closure-kept",
+    "live-key-false",
+    "next-expiry-none",
+    "next-expiry-some",
+    "next-expiry-not-future",
+    "oversleep",
+    "next-wait",
+    "next-wait-max",
+    "now-after-run",
+];
+
+fn halted(w: &W) -> bool {
+    w.rep.violations.iter().any(|v| {
+        w.decide.is_empty() || v.props.iter().any(|p| *p == w.decide) || !OBSERVATIONAL.contains(&v.rule)
+    })
+}
+
 fn new_world(trace: bool) -> W {
     W {
         rep: CaseReport::default(),
+        decide: String::new(),
         trace,
         now: 0,
         run_idx: 0,
@@ -974,6 +1007,12 @@ fn new_world(trace: bool) -> W {
 
 pub fn run_case(bytes: &[u8], opts: &Opts) -> CaseReport {
     let wh: Wh = Rc::new(RefCell::new(new_world(opts.trace)));
+    {
+        let f = opts.focus.as_bytes();
+        if f.len() == 3 && f[0] == b'C' && f[1].is_ascii_digit() && f[2].is_ascii_digit() {
+            wh.borrow_mut().decide = opts.focus.clone();
+        }
+    }
     let wh2 = wh.clone();
     let r = crate::pcatch::catch(move || run_body(&wh2, bytes, opts));
     let mut w = wh.borrow_mut();
@@ -1151,17 +1190,17 @@ fn run_body(wh: &Wh, bytes: &[u8], opts: &Opts) {
                 }
             }
         }
-        if !wh.borrow().rep.violations.is_empty() {
+        if halted(&wh.borrow()) {
             break;
         }
         check_next(&wh, s);
-        if !wh.borrow().rep.violations.is_empty() {
+        if halted(&wh.borrow()) {
             break;
         }
     }
 
     // Drain: follow next_expiry until the timer set is empty (C09 progress, C08 exactly once)
-    if wh.borrow().rep.violations.is_empty() {
+    if !halted(&wh.borrow()) {
         let mut iters = 0u64;
         loop {
             let ne = s.next_expiry();
@@ -1185,16 +1224,16 @@ fn run_body(wh: &Wh, bytes: &[u8], opts: &Opts) {
                 break;
             }
             do_run(&wh, s, to_off(e));
-            if !wh.borrow().rep.violations.is_empty() {
+            if halted(&wh.borrow()) {
                 break;
             }
             check_next(&wh, s);
-            if !wh.borrow().rep.violations.is_empty() {
+            if halted(&wh.borrow()) {
                 break;
             }
         }
         let mut w = wh.borrow_mut();
-        if w.rep.violations.is_empty() {
+        if !halted(&w) {
             let left: Vec<usize> = w
                 .timers
                 .iter()
